@@ -18,7 +18,7 @@ import (
 	"google.golang.org/protobuf/proto"
 )
 
-var c13MountKeys = []string{"/", "/m0", "/m1", "/m1/", "/m1/sub", "/m1/sub/deep", "/m2", "/m2/x/y", "/etc/m4", "/etc", "rel/m5", "rel", "/m1//sub/", "//etc/", "/m2/./x//"}
+var c13MountKeys = []string{"/", "/m0", "/m1", "/m1/", "/m1/sub", "/m1/sub/deep", "/m2", "/m2/x/y", "/etc/m4", "/etc", "rel/m5", "rel", "/m1//sub/", "//etc/", "/m2/./x//", "/verif-cdi/sub", "/verif-cdi/sub/deep"}
 
 type c13Case struct {
 	ID    string                   `json:"id"`
